@@ -14,6 +14,9 @@ amplitude type and every meaning of the gates in which X/CX/CCX/MCX/MCtrl(X) per
 states as `applyClassical` says and `I`/barriers do nothing (all other gates arbitrary), the two
 gate lists send every state to the same state.
 
+The internal-compiler model follows the repaired compiler (`docs/fixes/CC-*.diff`); `accepted_xonly`
+(`QV/Proofs/Decopt2.lean`) is ported to it.
+
 `C12_statement` below is the full property of the repaired model.  It is **proved** at the end of
 this file (`C12_full`, `C12_statement_holds`): the missing theorem about the internal compiler is
 `accepted_xonly` (`QV/Proofs/Decopt2.lean`) – a re-synthesis the repaired splice test accepts consists
